@@ -346,9 +346,9 @@ def run(prop, tier, repo, outdir, seed):
 
 REPLAY_BINS = {
     "C05": [("c05_stall", []), ("c_run", [], ["C05"])],
-    "C04": [("c04_empty", []), ("c_sched", [], ["C04"]), ("c_sched", [], ["C04", "--exhaustive"]), ("c_run", [], ["C04"]), ("c05_stall", []), ("c08_interrupt", ["--features", "interruptible"])],
+    "C04": [("c04_empty", []), ("c_sched", [], ["C04"]), ("c_sched", [], ["C04", "--exhaustive"]), ("c_run", [], ["C04"]), ("c05_stall", []), ("c08_interrupt", ["--features", "interruptible"]), ("c16_edges", [])],
     "C02": [("c_sched", [], ["C02"]), ("c_sched", [], ["C02", "--exhaustive"]), ("c_run", [], ["C02"]), ("c05_stall", [], ["C02"]), ("c16_edges", [])],
-    "C03": [("c_sched", [], ["C03"]), ("c_sched", [], ["C03", "--exhaustive"]), ("c_run", [], ["C03"]), ("c05_stall", [], ["C03"])],
+    "C03": [("c_sched", [], ["C03"]), ("c_sched", [], ["C03", "--exhaustive"]), ("c_run", [], ["C03"]), ("c05_stall", [], ["C03"]), ("c16_edges", [])],
     "C07": [("c_run", [], ["C07"])],
     "C08": [("c08_interrupt", ["--features", "interruptible"])],
     "C09": [("c_run", [], ["C09"]), ("c08_interrupt", ["--features", "interruptible"], ["C09"])],
